@@ -843,6 +843,11 @@ structure MoveKeeps (s : Imp) (r : MoveResult) : Prop where
   juncs : ∀ j i, JPairs r.s.t j i → (∃ i', JPairs s.t j i') ∨ (j = s.nextJ ∧ r.s.nextJ = s.nextJ + 1)
   nextJ : s.nextJ ≤ r.s.nextJ
   delJ : r.s.delJ = s.delJ
+  /-- no junction is lost -/
+  lost : ∀ j i, JPairs s.t j i → ∃ i', JPairs r.s.t j i'
+  /-- either no junction is made (and none appears), or exactly `s.nextJ` is made and is carried -/
+  newJ : (r.s.newJ = s.newJ ∧ r.s.nextJ = s.nextJ ∧ ∀ j i, JPairs r.s.t j i → ∃ i', JPairs s.t j i') ∨
+    (r.s.newJ = s.newJ ++ [s.nextJ] ∧ (∃ i, JPairs r.s.t s.nextJ i) ∧ r.s.nextJ = s.nextJ + 1)
 
 theorem moveLoop_JInv (self sj : Nat) :
     ∀ (l : List Nat) (s : Imp) (r : MoveResult), Tree s.t → JInv' s → JPairs s.t sj self →
@@ -854,7 +859,8 @@ theorem moveLoop_JInv (self sj : Nat) :
     intro s r ht hI _ _ _ h
     simp only [moveLoop, Option.some.injEq] at h
     subst h
-    exact ⟨hI, fun j i h => Or.inl ⟨i, h⟩, Nat.le_refl _, rfl⟩
+    exact ⟨hI, fun j i h => Or.inl ⟨i, h⟩, Nat.le_refl _, rfl, fun j i h => ⟨i, h⟩,
+      Or.inl ⟨rfl, rfl, fun j i h => ⟨i, h⟩⟩⟩
   | cons curr rest ih =>
     intro s r ht hI hself hfresh hnd' h
     rw [moveLoop] at h
@@ -926,11 +932,19 @@ theorem moveLoop_JInv (self sj : Nat) :
                       · exact Or.inr hh
                   have keepsA : ∀ tf : HTree, (∀ j i, JPairs tf j i ↔
                       i ≠ self ∧ ((i = cnId ∧ j = sj) ∨ (i ≠ cnId ∧ JPairs s.t j i))) →
-                      ∀ j i, JPairs tf j i → (∃ i', JPairs s.t j i') ∨ (j = s.nextJ ∧ s.nextJ = s.nextJ + 1) := by
+                      ∀ j i, JPairs tf j i → ∃ i', JPairs s.t j i' := by
                     intro tf hiff j i hp
                     rcases ((hiff j i).mp hp).2 with ⟨_, h2⟩ | ⟨_, hh⟩
-                    · exact Or.inl ⟨self, h2 ▸ hself⟩
-                    · exact Or.inl ⟨i, hh⟩
+                    · exact ⟨self, h2 ▸ hself⟩
+                    · exact ⟨i, hh⟩
+                  have lostA : ∀ tf : HTree, (∀ j i, JPairs tf j i ↔
+                      i ≠ self ∧ ((i = cnId ∧ j = sj) ∨ (i ≠ cnId ∧ JPairs s.t j i))) →
+                      ∀ j i, JPairs s.t j i → ∃ i', JPairs tf j i' := by
+                    intro tf hiff j i hp
+                    by_cases his : i = self
+                    · have : j = sj := JPairs_unique ht.1 (his ▸ hp) hself
+                      exact ⟨cnId, (hiff _ _).mpr ⟨Ne.symm hne, Or.inl ⟨rfl, this⟩⟩⟩
+                    · exact ⟨i, (hiff _ _).mpr ⟨his, Or.inr ⟨fun hh => hcnn j (hh ▸ hp), hp⟩⟩⟩
                   split at h
                   · split at h
                     · next hoth =>
@@ -973,13 +987,15 @@ theorem moveLoop_JInv (self sj : Nat) :
                           · rintro ⟨hh, _⟩; exact hh
                           · intro hh; exact ⟨hh, hh.1⟩
                         exact ⟨hI.moveA ht.1 hself hcnn hne hfin rfl rfl,
-                          keepsA _ hfin, Nat.le_refl _, rfl⟩
+                          fun j i hp => Or.inl (keepsA _ hfin j i hp), Nat.le_refl _, rfl,
+                          lostA _ hfin, Or.inl ⟨rfl, rfl, keepsA _ hfin⟩⟩
                     · split at h
                       · cases h
                       · simp only [Option.some.injEq] at h
                         subst h
                         exact ⟨hI.moveA ht.1 hself hcnn hne hP2 rfl rfl,
-                          keepsA _ hP2, Nat.le_refl _, rfl⟩
+                          fun j i hp => Or.inl (keepsA _ hP2 j i hp), Nat.le_refl _, rfl,
+                          lostA _ hP2, Or.inl ⟨rfl, rfl, keepsA _ hP2⟩⟩
                   · split at h
                     · simp only [Option.some.injEq] at h
                       subst h
@@ -994,19 +1010,29 @@ theorem moveLoop_JInv (self sj : Nat) :
                         · rintro (⟨h1, h2⟩ | hh)
                           · exact Or.inl ⟨h1, by rw [h2], hcnV⟩
                           · exact Or.inr hh
-                      refine ⟨hI.moveB hself hcnn hne hfresh hnd' hfin rfl rfl, ?_, Nat.le_succ _, rfl⟩
-                      intro j i hp
-                      rcases (hfin j i).mp hp with ⟨_, h2⟩ | ⟨_, hh⟩
-                      · exact Or.inr ⟨h2, rfl⟩
-                      · exact Or.inl ⟨i, hh⟩
+                      refine ⟨hI.moveB hself hcnn hne hfresh hnd' hfin rfl rfl, ?_, Nat.le_succ _, rfl, ?_,
+                        Or.inr ⟨rfl, ⟨cnId, (hfin _ _).mpr (Or.inl ⟨rfl, rfl⟩)⟩, rfl⟩⟩
+                      · intro j i hp
+                        rcases (hfin j i).mp hp with ⟨_, h2⟩ | ⟨_, hh⟩
+                        · exact Or.inr ⟨h2, rfl⟩
+                        · exact Or.inl ⟨i, hh⟩
+                      · intro j i hp
+                        exact ⟨i, (hfin _ _).mpr (Or.inr ⟨fun hh => hcnn j (hh ▸ hp), hp⟩)⟩
                     · have hJ0 : JSame s.t sc.t := hspec.le.jsame
                       obtain ⟨r1, r2⟩ := ih { s with t := sc.t } r hspec.tree (hI.of_jsame hJ0 rfl rfl)
                         ((hJ0 _ _).mp hself) (fun i hh => hfresh i ((hJ0 _ _).mpr hh)) hnd' h
-                      refine ⟨r1, ?_, r2.nextJ, r2.delJ⟩
-                      intro j i hp
-                      rcases r2.juncs j i hp with ⟨i', hh⟩ | hh
-                      · exact Or.inl ⟨i', (hJ0 _ _).mpr hh⟩
-                      · exact Or.inr hh
+                      refine ⟨r1, ?_, r2.nextJ, r2.delJ, ?_, ?_⟩
+                      · intro j i hp
+                        rcases r2.juncs j i hp with ⟨i', hh⟩ | hh
+                        · exact Or.inl ⟨i', (hJ0 _ _).mpr hh⟩
+                        · exact Or.inr hh
+                      · intro j i hp
+                        exact r2.lost j i ((hJ0 _ _).mp hp)
+                      · rcases r2.newJ with ⟨h1, h2, h3⟩ | hh
+                        · refine Or.inl ⟨h1, h2, fun j i hp => ?_⟩
+                          obtain ⟨i', hh⟩ := h3 j i hp
+                          exact ⟨i', (hJ0 _ _).mpr hh⟩
+                        · exact Or.inr hh
     · cases h
 
 theorem moveJunctionAlongCommonEdge_JInv {s : Imp} {self : Nat} {r : MoveResult} (ht : Tree s.t)
@@ -1052,7 +1078,7 @@ theorem moveJunctionStep_core {s : Imp} {j : Nat} {r : MoveResult} (ht : Tree s.
         simp only [Option.some.injEq] at h
         subst h
         rw [hsome] at hJ
-        exact ⟨hJ, hK.juncs, hK.nextJ, hK.delJ⟩
+        exact ⟨hJ, hK.juncs, hK.nextJ, hK.delJ, hK.lost, hK.newJ⟩
 
 /-- the requested form: one step of the caller's loop keeps the junction bookkeeping -/
 theorem moveJunctionStep_JInv {s : Imp} {j : Nat} {r : MoveResult} (ht : Tree s.t) (hI : JInv s)
@@ -1099,5 +1125,122 @@ theorem moveJunctionFully_inv : ∀ (f : Nat) (s : Imp) (j : Nat) (s' : Imp), Tr
       split at h
       · simp only [Option.some.injEq] at h; subst h; exact this
       · exact ih _ _ _ this.1 this.2.1 this.2.2 h
+
+/-! ## M5: conservation of junctions -/
+
+/-- the junctions made so far are below the allocation counter -/
+def NewJFresh (s : Imp) : Prop := ∀ j ∈ s.newJ, j < s.nextJ
+
+/-- one step of the caller's loop: what it keeps (`MoveKeeps`: nothing lost, at most `s.nextJ` made) -/
+theorem moveJunctionStep_keeps {s : Imp} {j : Nat} {r : MoveResult} (ht : Tree s.t) (hI : JInv s)
+    (hF : JFresh s) (h : moveJunctionStep s j = some r) : MoveKeeps s r := by
+  have hf : s.nextJ ∉ s.t.junctionsOf := fun hh => Nat.lt_irrefl _ (hF.1 _ hh)
+  have hd : s.nextJ ∉ s.delJ := fun hh => Nat.lt_irrefl _ (hF.2 _ hh)
+  exact (moveJunctionStep_core ht ((JInv_iff ht.1.nodupN).mp hI)
+    (fun i hp => hf (mem_junctionsOf.mpr ⟨i, hp⟩)) hd h).2
+
+/-- (iii): the junctions carried after a step are the old ones plus the newly made ones -/
+theorem MoveKeeps.junctions {s : Imp} {r : MoveResult} (hK : MoveKeeps s r) (hN : NewJFresh s) :
+    (∀ j, (∃ i, JPairs r.s.t j i) ↔ ((∃ i, JPairs s.t j i) ∨ (j ∈ r.s.newJ ∧ j ∉ s.newJ))) ∧
+    NewJFresh r.s ∧ ∃ L, r.s.newJ = s.newJ ++ L := by
+  have hnn : s.nextJ ∉ s.newJ := fun hh => Nat.lt_irrefl _ (hN _ hh)
+  rcases hK.newJ with ⟨h1, h2, h3⟩ | ⟨h1, h2, h3⟩
+  · refine ⟨?_, ?_, [], by simp [h1]⟩
+    · intro j
+      constructor
+      · rintro ⟨i, hp⟩; exact Or.inl (h3 j i hp)
+      · rintro (⟨i, hp⟩ | ⟨a, b⟩)
+        · exact hK.lost j i hp
+        · rw [h1] at a; exact absurd a b
+    · intro j hj; rw [h1] at hj; rw [h2]; exact hN j hj
+  · refine ⟨?_, ?_, [s.nextJ], h1⟩
+    · intro j
+      constructor
+      · rintro ⟨i, hp⟩
+        rcases hK.juncs j i hp with hh | ⟨hh, _⟩
+        · exact Or.inl hh
+        · refine Or.inr ⟨?_, hh ▸ hnn⟩
+          rw [h1, hh]; simp
+      · rintro (⟨i, hp⟩ | ⟨a, b⟩)
+        · exact hK.lost j i hp
+        · rw [h1, List.mem_append, List.mem_singleton] at a
+          rcases a with a | a
+          · exact absurd a b
+          · rw [a]; exact h2
+    · intro j hj
+      rw [h1, List.mem_append, List.mem_singleton] at hj
+      rw [h3]
+      rcases hj with hj | hj
+      · exact Nat.lt_succ_of_lt (hN j hj)
+      · omega
+
+/-- everything the junction-move loop keeps, from a state `s` to a later state `s'` -/
+structure FullyKeeps (s s' : Imp) : Prop where
+  tree : Tree s'.t
+  jinv : JInv s'
+  jfresh : JFresh s'
+  newJFresh : NewJFresh s'
+  /-- no junction is lost -/
+  lost : ∀ j i, JPairs s.t j i → ∃ i', JPairs s'.t j i'
+  /-- conservation: carried junctions = old ones ∪ newly made ones -/
+  junctions : ∀ j, (∃ i, JPairs s'.t j i) ↔ ((∃ i, JPairs s.t j i) ∨ (j ∈ s'.newJ ∧ j ∉ s.newJ))
+  delJ : s'.delJ = s.delJ
+  /-- `s.newJ` is a prefix of `s'.newJ` -/
+  newJ : ∃ L, s'.newJ = s.newJ ++ L
+  nextJ : s.nextJ ≤ s'.nextJ
+
+theorem FullyKeeps.refl {s : Imp} (ht : Tree s.t) (hI : JInv s) (hF : JFresh s) (hN : NewJFresh s) :
+    FullyKeeps s s :=
+  ⟨ht, hI, hF, hN, fun j i h => ⟨i, h⟩,
+   fun j => ⟨fun h => Or.inl h, fun h => h.elim id (fun h => absurd h.1 h.2)⟩, rfl, ⟨[], by simp⟩,
+   Nat.le_refl _⟩
+
+theorem FullyKeeps.trans {a b c : Imp} (h1 : FullyKeeps a b) (h2 : FullyKeeps b c) : FullyKeeps a c := by
+  obtain ⟨L1, hL1⟩ := h1.newJ
+  obtain ⟨L2, hL2⟩ := h2.newJ
+  refine ⟨h2.tree, h2.jinv, h2.jfresh, h2.newJFresh, ?_, ?_, h2.delJ.trans h1.delJ,
+    ⟨L1 ++ L2, by rw [hL2, hL1, List.append_assoc]⟩, Nat.le_trans h1.nextJ h2.nextJ⟩
+  · intro j i hp
+    obtain ⟨i', hp'⟩ := h1.lost j i hp
+    exact h2.lost j i' hp'
+  · intro j
+    have hsub1 : j ∈ a.newJ → j ∈ b.newJ := fun hh => by rw [hL1]; exact List.mem_append_left _ hh
+    have hsub2 : j ∈ b.newJ → j ∈ c.newJ := fun hh => by rw [hL2]; exact List.mem_append_left _ hh
+    rw [h2.junctions j, h1.junctions j]
+    constructor
+    · rintro ((hh | ⟨x, y⟩) | ⟨x, y⟩)
+      · exact Or.inl hh
+      · exact Or.inr ⟨hsub2 x, y⟩
+      · exact Or.inr ⟨x, fun hh => y (hsub1 hh)⟩
+    · rintro (hh | ⟨x, y⟩)
+      · exact Or.inl (Or.inl hh)
+      · by_cases hb : j ∈ b.newJ
+        · exact Or.inl (Or.inr ⟨hb, y⟩)
+        · exact Or.inr ⟨x, hb⟩
+
+/-- (i)–(iii) for one step, with all invariants carried along -/
+theorem moveJunctionStep_fullyKeeps {s : Imp} {j : Nat} {r : MoveResult} (ht : Tree s.t) (hI : JInv s)
+    (hF : JFresh s) (hN : NewJFresh s) (h : moveJunctionStep s j = some r) : FullyKeeps s r.s := by
+  obtain ⟨ht', hI', hF'⟩ := moveJunctionStep_inv ht hI hF h
+  have hK := moveJunctionStep_keeps ht hI hF h
+  obtain ⟨hj, hN', hL⟩ := hK.junctions hN
+  exact ⟨ht', hI', hF', hN', hK.lost, hj, hK.delJ, hL, hK.nextJ⟩
+
+/-- (iv): the same for the whole `while` loop of one junction -/
+theorem moveJunctionFully_fullyKeeps : ∀ (f : Nat) (s : Imp) (j : Nat) (s' : Imp), Tree s.t → JInv s →
+    JFresh s → NewJFresh s → moveJunctionFully f s j = some s' → FullyKeeps s s' := by
+  intro f
+  induction f with
+  | zero => intro s j s' _ _ _ _ h; cases h
+  | succ f ih =>
+    intro s j s' ht hI hF hN h
+    rw [moveJunctionFully] at h
+    split at h
+    · cases h
+    · next r hr =>
+      have hk := moveJunctionStep_fullyKeeps ht hI hF hN hr
+      split at h
+      · simp only [Option.some.injEq] at h; subst h; exact hk
+      · exact hk.trans (ih _ _ _ hk.tree hk.jinv hk.jfresh hk.newJFresh h)
 
 end AdaptaVerif.Lemmas.HyperTreeMove
